@@ -119,6 +119,9 @@ def make_case(rng, measure):
     else:
         kind2 = gen.pick(rng, ['pos', 'ties', 'neg', 'eucl'])
     v2 = gen.rdm_vectors(rng, n2, n_cond, kind2)
+    if kind == 'ties' and kind2 == 'ties' and rng.integers(2):
+        # ordinal judgements stored as integers: the measure of the same numbers must not depend on their dtype
+        v1, v2 = v1.astype(np.int64), v2.astype(np.int64)
     if measure in ('cosine_cov', 'corr_cov'):
         sk = gen.pick(rng, ['none', 'vector', 'matrix', 'const_vector'])
     else:
